@@ -208,3 +208,5 @@ _add("C02", "technique", "; composed pipeline model (Annet.tla: A-layers of appl
 _add("C02", "text", "MC_Pipeline: for every ACL of a catalogue rulebook's family (sub-forests of its rule tree, rules deletable or protected) x every device configuration x every ACL-confined generator output, the "
      "transcribed pipeline's commands executed on the device satisfy (a)(b)(c) and the covered part converges; the pipeline without apply_acl_diff's cant_delete branch and the catalogue entry holding the recorded "
      "%ordered-block finding must violate Safe (anti-vacuity).")
+_add("C15", "text", "Three-device chains a1-b2-c3 (the middle device served by two rules with different name templates, plus decoy rules whose filter is false or whose regex template does not match) give one judged pair per link.")
+_add("C15", "note", "Two-device topologies and three-device chains; virtual and device rules are not driven.", replace="Two-device topologies only (3..5 devices, virtual rules and name-template filters are not built yet: stated in evidence assumptions).")
